@@ -422,8 +422,17 @@ impl FCtx<'_> {
             12 | 13 => {
                 let c = self.expr(Ty::I32, d + 1);
                 self.labels.push(false);
-                let t = self.stmts(d + 1, 3);
+                let mut t = self.stmts(d + 1, 3);
                 let e = if self.rng.coin() { self.stmts(d + 1, 2) } else { Vec::new() };
+                if !e.is_empty() && self.rng.chance(1, 4) {
+                    // the then-branch leaves through an unconditional exit; the else branch stays live
+                    if self.rng.coin() {
+                        let r = self.result.map(|ty| self.expr(ty, d + 2));
+                        t.push(Stmt::Return(r));
+                    } else if let Some(target) = self.branch_target() {
+                        t.push(Stmt::Br(target));
+                    }
+                }
                 self.labels.pop();
                 Stmt::If(c, t, e)
             }
